@@ -336,22 +336,30 @@ def queries(tier):
     quick = tier == "quick"
     qs = []
     f2 = lambda: HeaderRxHarness(n_packets=2, lead=9, spacing=2)
-    f3 = lambda: HeaderRxHarness(n_packets=3, lead=9, spacing=1)
-    hint = {"*": {"retry_required": 0, "keepalive": 0, "lxu": 0}}
-    qs.append(Query("bmc_2hp_free", f2, f2().K if quick else f2().K + 6, timeout=600, hints=hint, split=False,
+    f3 = lambda: HeaderRxHarness(n_packets=3, lead=9, spacing=2)
+    hint = {"*": {"retry_required": 0, "keepalive": 0, "lxu": 0, "src_ready": 1}}
+    cmd_asserts = ["offer_valid", "lgood_number", "lbad_cause", "lcrd_order", "lcrd_free", "adv_first", "lc_format"]
+    K2 = f2().K
+    qs.append(Query("bmc_2hp_plain", f2, K2 if quick else K2 + 6, layer=_NO_EXTRA, timeout=900, hints=hint, split=False,
                     covers=["delivered_k1", "lgood_ack", "lbad_sent", "adv_done", "four_credits", "lcrd_after_free"],
-                    desc="2 symbolic headers; ready/consumption/retry/LRTY/keepalive/LXU strobes free every cycle"))
-    qs.append(Query("bmc_3hp_plain", f3, f3().K + (0 if quick else 6), layer=_NO_EXTRA, timeout=600, hints=hint, split=False,
+                    desc="layer: no LRTY/keepalive/LXU requests; 2 symbolic headers (content, sequence numbers, CRC "
+                         "corruption), PHY ready, protocol-layer consumption and partner retry free every cycle"))
+    qs.append(Query("bmc_2hp_busy", f2, K2, layer={"src_ready": 1}, asserts=cmd_asserts, covers=[], timeout=900, split=False,
+                    desc="layer: PHY always ready; LRTY/keepalive/LXU requests free (interleaved commands); "
+                         "link-command assertions"))
+    qs.append(Query("bmc_3hp_plain", f3, f3().K, layer=dict(_NO_EXTRA, src_ready=1), timeout=900, hints=hint, split=False,
                     covers=["ignored_then_accepted", "wrong_seq_dropped"],
-                    desc="layer: no LRTY/keepalive/LXU requests; 3 symbolic headers (bad header, ignored header, retry, "
-                         "wrong sequence number), ready and consumption free"))
+                    desc="layer: PHY always ready, no LRTY/keepalive/LXU; 3 symbolic headers (bad header, ignored header, "
+                         "retry, wrong sequence number), consumption and retry free"))
     if not quick:
+        qs.append(Query("bmc_2hp_free", f2, K2, timeout=900, covers=[], split=False, required=False,
+                        desc="best effort: everything free"))
         f5 = lambda: HeaderRxHarness(n_packets=5, lead=9, spacing=1)
         qs.append(Query("bmc_5hp_ready", f5, f5().K, layer=dict(_NO_EXTRA, src_ready=1), covers=[], timeout=900, split=False,
                         desc="layer: PHY always ready, no LRTY/keepalive/LXU; 5 headers (buffer wrap-around, "
                              "credit re-issue), consumption free"))
         fg = lambda: HeaderRxHarness(n_packets=2, lead=9, spacing=2, gaps=(2, 4))
-        qs.append(Query("bmc_2hp_gaps", fg, fg().K, covers=[], timeout=900, split=False,
-                        desc="2 headers with invalid cycles inside them; everything else free"))
+        qs.append(Query("bmc_2hp_gaps", fg, fg().K, layer=_NO_EXTRA, covers=[], timeout=900, split=False,
+                        desc="2 headers with invalid cycles inside them; no LRTY/keepalive/LXU"))
     qs.append(Query("cosim", f3, 0, kind="cosim", cosim_cycles=120 if quick else 600))
     return qs
